@@ -543,6 +543,9 @@ def call(I, f, args, kwargs, node=None):
     if not I.spec:
         f = I.force(f)
     elif isinstance(f, VOptObj):
+        # a possibly-absent callable used inside a specification / sort key: only when it is known to be present
+        if not I.path.known(f.present):
+            raise Unsupported("call of an optional callable not known to be present, in a specification")
         f = f.obj
     if isinstance(f, VUn):
         g = callable_un_func(I, f)
